@@ -159,10 +159,11 @@ impl Channel {
                         &&& r->Ok_0.1.unwrap() > 0
                         &&& final(self).sender.cap() == old(self).sender.cap() - 1 + r->Ok_0.1.unwrap()
                     })
-                // replenishment happens exactly at the low-water mark when the receiver has more to give
-                &&& (r->Ok_0.1 is Some <==> (old(self).sender.cap() - 1 <= LOW_CAPACITY
-                        && old(self).receiver.cap() - 1 > old(self).sender.cap() - 1))
-                &&& (r->Ok_0.1 is Some ==> final(self).sender.cap() == final(self).receiver.cap())
+                // a sender that would otherwise be left without credit while the receiver still has some MUST be
+                // replenished (it stays within what was announced to it, so it must not get stuck or be cut off)
+                &&& ((old(self).sender.cap() - 1 == 0 && old(self).receiver.cap() - 1 > 0) ==> r->Ok_0.1 is Some)
+                // and credit is never announced beyond what the receiver granted
+                &&& final(self).sender.cap() <= final(self).receiver.cap()
             },
     //@end
 
@@ -195,9 +196,9 @@ impl Channel {
                 &&& final(self).sender.cap() == old(self).sender.cap() + r->Ok_0.unwrap().1
                 &&& final(self).sender.cap() == final(self).receiver.cap()
             },
-            // the sender is told exactly when it is at or below the low-water mark
-            (capacity > 0 && old(self).receiver.claimed_by(conn_id.id()) && r is Ok && old(self).sender is Claimed)
-                ==> ((r->Ok_0 is Some) <==> old(self).sender.cap() <= LOW_CAPACITY),
+            // a sender that had no credit left is told about an accepted grant
+            (capacity > 0 && old(self).receiver.claimed_by(conn_id.id()) && r is Ok && old(self).sender is Claimed
+                && old(self).sender.cap() == 0) ==> r->Ok_0 is Some,
     //@end
 }
 
